@@ -60,6 +60,8 @@ def grid(tier: str) -> List[Dict[str, Any]]:
         if tier == "quick" and mode in ("async_close", "sync_close") and (second is not None or d not in (21, 250, 499, 1199)):
             continue
         pts.append({"kind": kind, "d": d, "jitter": j, "shape": shape, "mode": mode, "second": second})
+    # the same on an IPv6-only host (queries from a link-local source): every 5th point
+    pts += [dict(q, v6=True) for q in pts[::5]]
     return pts
 
 
@@ -69,7 +71,8 @@ def run_point(p: Dict[str, Any], verbose: bool = False) -> Tuple[Optional[Dict[s
     # aggregation queue holds two groups and keeps the first until its 500 ms deadline
     rand = RandPolicy.seq([p["jitter"], 1.0 - p["jitter"]], p["jitter"]) if p["kind"] == "qm-burst" else RandPolicy.const(p["jitter"])
     with World(rand=rand) as w:
-        host = w.new_zeroconf()
+        v6 = bool(p.get("v6"))
+        host = w.new_zeroconf(mode="single6" if v6 else "single")
         peer = Peer(w)
         svcs = SHAPES[p["shape"]]
         infos = [make_info(s) for s in svcs]
@@ -81,12 +84,12 @@ def run_point(p: Dict[str, Any], verbose: bool = False) -> Tuple[Optional[Dict[s
         if p["kind"] == "protected-ptr":
             # the host sees its records multicast by a cooperating responder 500 ms before the query
             prime = wire.response(svc_records(S1))
-            peer.at(tq - 500, host, prime)
-        peer.at(tq, host, data, port)
+            peer.at(tq - 500, host, prime, v6=v6)
+        peer.at(tq, host, data, port, v6=v6)
         if p["kind"] == "qm-burst":
-            peer.at(tq + 1, host, wire.query([("Q", TA, 12, 1), ("Q", S1.name, 16, 1)], id_=8), port)
+            peer.at(tq + 1, host, wire.query([("Q", TA, 12, 1), ("Q", S1.name, 16, 1)], id_=8), port, v6=v6)
         if p["second"] is not None:
-            peer.at(t0 + U_MS + p["second"], host, wire.query([("Q", TA, 12, 1), ("Q", S1.name, 16, 1)], id_=7))
+            peer.at(t0 + U_MS + p["second"], host, wire.query([("Q", TA, 12, 1), ("Q", S1.name, 16, 1)], id_=7), v6=v6)
         w.advance_to_ms(t0 + U_MS)
         mode = p["mode"]
         if mode == "unregister":
